@@ -13,6 +13,7 @@ KF001 == <<0, 0, 1>>
 FixNone == {}
 FixAll == {"anchored", "size", "own", "undo"}
 FixAnchored == {"anchored"}
+FixCur == {"anchored", "size"}      \* the tree after e2d5c44 and 204d147
 vars == <<img, st, phase>>
 AllHdrs == {[t |-> "H", key |-> k, first |-> fi, next |-> nx, pay |-> p, esz |-> e,
              mok |-> m, mkey |-> k, msz |-> 0, mhl |-> 1, mpriv |-> FALSE] :
@@ -43,6 +44,10 @@ TodayOk(out) ==
    /\ (Exclusive(out) /\ Partition(N, out)) \/ \E i \in 1..Len(out.ent) : ForeignSlot(img, out.ent[i])
    /\ SeqSet(out.free) \subseteq 0..(N - 1)
 Today == phase = "done" => TodayOk(Out)
+\* the tree as it is now (anchored + size checks): everything but the foreign-slot shape (F6c) and what follows from it
+Current == phase = "done" => LET out == Out IN
+   /\ TodayOk(out)
+   /\ \A i \in 1..Len(out.ent) : ~OrphanTail(img, out.ent[i]) /\ SizesAddUp(out.ent[i])
 \* with only the F6 repair: no orphan tails any more, the other two shapes remain
 AnchoredOnly == phase = "done" => LET out == Out IN TodayOk(out) /\ \A i \in 1..Len(out.ent) : ~OrphanTail(img, out.ent[i])
 \* the conjuncts of C57 one by one (to see which of them today's code breaks, and on which images)
